@@ -296,6 +296,32 @@ def main(argv=None) -> int:
                          f"from the current source ({r['error'].splitlines()[0][:160]})")
         else:
             checker_errors.append(r['error'])
+    # the same for code that has left the verified subset: a path of the changed function the generator cannot follow (reported as
+    # OUT-OF-SUBSET) on which obligations that were discharged on the baseline tree are no longer generated
+    if baseline is not None and baseline['tree'] != cur_tree:
+        seen_cs = set()
+        for r in raw_ded:
+            if r.get('error') or not r.get('out_of_subset') or r.get('shard', 0) != 0:
+                continue
+            cs = (r['contract'], r['scenario'])
+            if cs in seen_cs:
+                continue
+            seen_cs.add(cs)
+            pref = f"{r['contract']}|{r['scenario']}|"
+            now = {ob_key(dict(o, contract=r['contract'])) for rr in raw_ded if rr['contract'] == r['contract'] and rr.get('scenario') == r['scenario'] for o in rr['obligations']
+                   if o['status'] == 'discharged'}
+            lost = [k for k in baseline['discharged'] if k.startswith(pref) and k not in now]
+            if not lost:
+                continue
+            path = write_replay(pid, f"{r['contract']}-outside-the-verified-subset", {
+                'property': pid, 'obligation': f"{r['contract']}/contract-applies [{r['scenario']}]", 'contract': r['contract'], 'scenario': r['scenario'],
+                'reason': 'the current source of the function uses a construct outside the subset the generator encodes on a path where obligations were discharged '
+                          'on the baseline tree; those obligations cannot be generated on this tree',
+                'lost_obligations': lost, 'baseline_tree': baseline['tree'], 'current_tree': cur_tree, 'generator_output': r['out_of_subset']})
+            violations.append((f"{r['contract']}/contract-applies", path))
+            lines.append(f"VIOLATION property={pid} replay={path} no-failing-input-found")
+            lines.append(f"  obligation {r['contract']}/contract-applies [{r['scenario']}]: {len(lost)} obligations discharged on the baseline tree cannot be generated "
+                         f"from the current source ({str(r['out_of_subset'][0])[:160]})")
     for e in checker_errors:
         lines.append('CHECKER-ERROR ' + e)
 
